@@ -1,7 +1,8 @@
 (* C05 - Manifolds and CrossSections are values: deriving new ones never
    changes old ones.  Only statements closed by `exact`, each followed by
    Print Assumptions.  Model: Proto/CowDefs.v (buffers with use counts, Impl =
-   three shared buffers + deep-copied vectors, library functions = event trees
+   three shared buffers + deep-copied vectors; copy construction deep-copies,
+   copy assignment shares (src/vec.h); library functions = event trees
    over frame-local Impl objects, handles with lazy transforms). *)
 From Coq Require Import ZArith List Bool.
 From MV Require Import Proto.CowDefs Proto.CowModel Proto.CowExamples Proto.CowTableOk Gen.CowTable.
@@ -68,9 +69,10 @@ Theorem lazy_transform_unobservable :
 Proof. exact force_spec. Qed.
 Print Assumptions lazy_transform_unobservable.
 
-(* Hypotheses are satisfiable: a disciplined table with a seven-step history
-   (create, copy, derive through an Impl copy + MakeUnique + writes, mirror
-   lazily, force, transform-like sharing, drop). *)
+(* Hypotheses are satisfiable: a disciplined table with an eight-step history
+   (create, copy, derive through a sharing Impl assignment + MakeUnique +
+   writes, mirror lazily, force, transform-like sharing, deep copy written in
+   place, drop). *)
 Example discipline_example :
   discipline_ok good_tbl = true /\
   exists hs, hrun good_tbl h0 hist1 = Some hs /\
@@ -78,11 +80,12 @@ Example discipline_example :
     obs_handle hs 2 = Some ([[7]; [1;2;3]; [8]], [30])%Z /\
     obs_handle hs 3 = Some ([[3;2;1]; [3;2;1]; [3;2;1]], [5;15])%Z /\
     obs_handle hs 4 = Some ([[4]; [5]; [6]], [])%Z /\
+    obs_handle hs 5 = Some ([[1;2;3]; [42]; [1;2;3]], [10;20])%Z /\
     obs_handle hs 1 = None.
 Proof. exact (conj good_tbl_ok hist1_runs). Qed.
 
 (* Not vacuous: WITHOUT the discipline (the same method with its MakeUnique
-   deleted: a write after an Impl copy) the checker rejects the table and there
+   deleted: a write after a sharing Impl assignment) the checker rejects the table and there
    is a history in which an old object's observation changes. *)
 Theorem write_without_make_unique_refuted :
   discipline_ok bad_tbl = false /\
